@@ -151,12 +151,27 @@ JoinPath(comps, star) ==
   IF comps = <<>> THEN ""
   ELSE "/" \o (IF star /\ IsIdx(comps[1]) THEN "*" ELSE comps[1]) \o JoinPath(Tail(comps), star)
 
+\* Named deviation Dev_MsgPackStreamParentKeyView (MsgPack archive loaded from a std::istream): the key of an object scope
+\* that has an open child scope is a string_view into the stream reader's single string buffer, which every later key or
+\* string read overwrites; GetPath() of the child scopes therefore renders the PARENT keys from foreign bytes.  Those
+\* bytes depend only on the field being validated, so two elements of a map collapse into one path.  Model: every parent
+\* key component is "?" (array positions and the field's own key are intact).
+\* (identity of the paths inside the std::map of errors; keepElem: the key of a map element is still the last string read
+\* when its object has no members, i.e. when every field is absent)
+GarbleParents(comps, keepElem) ==
+  [k \in 1..Len(comps) |-> IF k = Len(comps) \/ IsIdx(comps[k]) \/ (keepElem /\ k = 2) THEN comps[k] ELSE "?"]
+DevGuard_MsgPackStreamParentKeyView(s) == s.place \in {"nested", "arr", "map"}      \* the path has a parent key
+
 \* path as reported by an archive, array positions replaced by '*' (the property: "array positions aside").
 \* JSON: JSON Pointer (README); MsgPack, CSV: the same shape; XML: element names from the document element
 \* ("root" for an unnamed root object, "array" for an unnamed root array - docs/bitserializer_pugixml.md).
 NormPath(fam, s, comps) ==
-  (IF fam = "xml" THEN (IF s.place = "rootarr" THEN "/array" ELSE "/root") ELSE "") \o JoinPath(comps, TRUE)
+  IF fam = "mpstream" THEN JoinPath([k \in 1..Len(comps) |-> IF k < Len(comps) THEN "?" ELSE comps[k]], TRUE)
+       \* rendering under Dev_MsgPackStreamParentKeyView: foreign bytes may look like anything (also like a position), so
+       \* every component but the field's own key is compared as "?"
+  ELSE (IF fam = "xml" THEN (IF s.place = "rootarr" THEN "/array" ELSE "/root") ELSE "") \o JoinPath(comps, TRUE)
 RealPath(comps) == JoinPath(comps, FALSE)
+
 
 -----------------------------------------------------------------------------
 (* A: what the caller must observe.  `inst` is always Instances(s) (passed so that it is evaluated once). *)
@@ -208,27 +223,34 @@ AddValidationErrors(st, cap, i, path, msgs) ==
   IN IF cap > 0 /\ Len(map1) = cap THEN [map |-> map1, thrown |-> TRUE, stop |-> i]
      ELSE [st EXCEPT !.map = map1]
 
-RECURSIVE MValidators(_, _, _, _, _)
-MValidators(st, cap, i, ins, j) ==             \* KeyValue::VisitArgs: validators in declaration order
+\* path handed to the context: the scope's GetPath() + separator + key
+\* garble: "no" | "all" | "keepelem"
+MPath(comps, garble) == RealPath(IF garble = "no" THEN comps ELSE GarbleParents(comps, garble = "keepelem"))
+
+RECURSIVE MValidators(_, _, _, _, _, _)
+MValidators(st, cap, i, ins, j, garble) ==     \* KeyValue::VisitArgs: validators in declaration order
   IF st.thrown \/ j > Len(ins.vr) THEN st
   ELSE IF ins.vr[j] # ""
-       THEN MValidators(AddValidationError(st, cap, i, RealPath(ins.comps), ins.vr[j]), cap, i, ins, j + 1)
-       ELSE MValidators(st, cap, i, ins, j + 1)
+       THEN MValidators(AddValidationError(st, cap, i, MPath(ins.comps, garble), ins.vr[j]), cap, i, ins, j + 1, garble)
+       ELSE MValidators(st, cap, i, ins, j + 1, garble)
 
-RECURSIVE MFields(_, _, _, _, _)
-MFields(st, cap, insts, i, fixed) ==
+RECURSIVE MFields(_, _, _, _, _, _)
+MFields(st, cap, insts, i, fixed, garble) ==
   IF st.thrown \/ i > Len(insts) THEN st
   ELSE LET st1 == IF fixed
-                  THEN (IF insts[i].msgs = <<>> THEN st ELSE AddValidationErrors(st, cap, i, RealPath(insts[i].comps), insts[i].msgs))
-                  ELSE MValidators(st, cap, i, insts[i], 1)
-       IN MFields(st1, cap, insts, i + 1, fixed)
+                  THEN (IF insts[i].msgs = <<>> THEN st ELSE AddValidationErrors(st, cap, i, MPath(insts[i].comps, garble), insts[i].msgs))
+                  ELSE MValidators(st, cap, i, insts[i], 1, garble)
+       IN MFields(st1, cap, insts, i + 1, fixed, garble)
 
 \* LoadObject: ... SplitAndSerialize ... context.OnFinishSerialization()
-M(s, inst, fixed) ==
-  LET st == MFields([map |-> <<>>, thrown |-> FALSE, stop |-> 0], s.cap, inst, 1, fixed)
+MG(s, inst, fixed, garble) ==
+  LET st == MFields([map |-> <<>>, thrown |-> FALSE, stop |-> 0], s.cap, inst, 1, fixed, garble)
   IN [rep  |-> SubSeq([k \in 1..Len(st.map) |-> [i |-> st.map[k].i, msgs |-> st.map[k].msgs]], 1, Len(st.map)),
       exc  |-> st.thrown \/ st.map # <<>>,
       stop |-> st.stop]
+M(s, inst, fixed) == MG(s, inst, fixed, "no")
+MGarbled(s, inst) ==
+  MG(s, inst, TRUE, IF s.place = "map" /\ (\A k \in 1..Len(s.fields) : s.fields[k].doc[1] = "absent") THEN "keepelem" ELSE "all")
 
 -----------------------------------------------------------------------------
 (* The observation the harness logs, as prescribed by a result r (of A, ADev or M):                          *)
@@ -260,6 +282,9 @@ Vals(s, inst, r) ==
 
 Obs(s, inst, r) == [exc |-> IF r.exc THEN <<"validation">> ELSE <<"none">>,
                     errs |-> Errs("json", s, inst, r), errsxml |-> Errs("xml", s, inst, r), vals |-> Vals(s, inst, r)]
+\* observation under Dev_MsgPackStreamParentKeyView (r = MGarbled(s, inst)); errs with parent keys rendered as "?"
+ObsGarbled(s, inst, r) == [exc |-> IF r.exc THEN <<"validation">> ELSE <<"none">>,
+                           errs |-> Errs("mpstream", s, inst, r), errsxml |-> <<>>, vals |-> Vals(s, inst, r)]
 
 -----------------------------------------------------------------------------
 (* Archives on which a scenario is meaningful (data-model facts, not judgements):                                 *)
